@@ -22,9 +22,9 @@ from harness import core, vloop
 LEAN_COMPONENT = "tasks"
 ANCHORS = ["src/haiway/context/state.py", "src/haiway/context/access.py", "src/haiway/context/tasks.py",
            "src/haiway/context/disposables.py"]
-NTYPES = 6
+NTYPES = 7
 TWIN = 1000000   # instance ty:(v+TWIN) is a distinct object that compares == to instance ty:v
-CTOR = "110000"  # T0, T1 need no arguments; T2, T3, G[int], G[str] do
+CTOR = "1100001"  # T0, T1, T4 need no arguments (T4 has an attribute without a default that accepts MISSING); T2, T3, G[int], G[str] do
 TRUSTED = ["contextvars semantics (ContextVar.set/reset tokens, copy_context on task creation) as modelled in "
            "Haiway/Model/Tasks.lean", "harness/scopestate_common.py executor + environment-stack monitor"]
 ASSUMPTIONS = ["normal control flow only (exceptional exits are C02)",
